@@ -129,6 +129,11 @@ def run(res):
                 if content == "screen" and "screen_content_mode" not in s:
                     s["screen_content_mode"] = 1
                 add(10 if pr >= 6 else 5, s, {"off": {k: 1 for k in foff}, "seqoff": {k: 1 for k in soff}}, content, preset=pr, tag="off:" + name)
+    # every switch again on a picture with several tiles (some stages take over another stage's work for multi-tile pictures and must
+    # carry the switch along), smooth content at a mid quantizer where the in-loop filters pay off
+    for name, (sets, foff, soff) in OFF.items():
+        for tiles in ({"tile_columns": 1}, {"tile_rows": 1}) if res.tier == "thorough" else ({"tile_columns": 1},):
+            add(10, dict(sets, qp=45, **tiles), {"off": {k: 1 for k in foff}, "seqoff": {k: 1 for k in soff}}, "pan", 256, 128, preset=8, tag="off+tiles:" + name)
     for pr in presets:   # controls: defaults (tools may appear; nothing is required)
         add(10 if pr >= 6 else 5, {}, {}, "motion", preset=pr, tag="control")
         add(8 if pr >= 6 else 4, {"screen_content_mode": 1}, {}, "screen", preset=pr, tag="control-sc")
